@@ -7,7 +7,12 @@ IMPL   harness/h_c13.cpp (+ c13_kernel.hpp): for a view program, `get_function_c
 MODEL  lean/NmVerif/Kernel.lean `runSchedule` (fold of `assignResult` over the schedule) on the flattened host result.
 ORACLE NumPy evaluates the view program; expected buffer = closed form "cell i holds res[i] iff some thread of the
        schedule has block*bsz+thread == i, else the sentinel" (what Props.C13.kernel_untouched_until_hit proves of the fold).
-No device exists here: the launch itself (driver API, memory copies, real thread scheduling) is NOT covered.
+       harness/h_c13_sycl.cpp: the REAL SYCL evaluator (eval/sycl/evaluator.hpp + context.hpp: extraction, operand upload,
+       launch geometry, kernel lambda, copy back) end to end over harness/c13_sycl_mock.hpp, a sequential stand-in for the SYCL
+       runtime in which the generator picks which work items of the context's own launch run, in which order, how often.
+       harness/h_c13_dev.cpp: the REAL context_t::create_array of the CUDA and HIP contexts over stand-ins for the runtime API
+       (clang++ CUDA/HIP host-only mode): the uploaded (pointer, shape, dim) triple.
+No device exists here: driver API, real memory transfers and real thread scheduling are NOT covered.
 """
 import itertools
 import os
@@ -23,23 +28,29 @@ RULE = ('view programs of depth 1..3 over the device-supported operations (index
         'both operand rebuild modes (device_array / create_array(ptr,shape_ptr,dim)); block sizes cycle through 1..33, grids from '
         'exactly covering to 2x over-provisioned, orders ascending / descending / block-interleaved / even-odd / random permutation, '
         'duplicated threads, far out-of-range threads, partial launches; one program additionally over the full cross product '
-        'bsz 1..33 x grid x order. non-trivial = output has >= 2 cells and the schedule is not the plain ascending exact launch')
+        'bsz 1..33 x grid x order; binary ufuncs with both operands views and reductions over them; 12 programs end to end through the real SYCL evaluator over a mock runtime '
+        '(its own launch: work-group 32, global size rounded up; work items in 5 orders, duplicated, beyond the launch, omitted); uploads of row- and column-major '
+        'operands of rank 1..8 through the real CUDA / HIP create_array. non-trivial = output has >= 2 cells and the schedule is not the plain ascending exact launch')
 EXHAUSTIVE = {'quick': False, 'thorough': False}
 ANCHORS = {'NmVerif.Kernel.createVector/createArray/createMutableArray': 'array::create_vector, create_array(ptr,shape_ptr,dim), create_mutable_array (eval/kernel_helper.hpp:30-129)',
            'NmVerif.Kernel.threadOffset': 'array::compute_offset(thread_id, block_id, block_size) (kernel_helper.hpp:149-155)',
            'NmVerif.Kernel.assignResult': 'array::assign_result (kernel_helper.hpp:157-191) over view::mutable_flatten / view::flatten',
            'NmVerif.Kernel.runSchedule': 'kernel entry nm_cuda_run_function / nm_hip_run_function / sycl parallel_for body, once per thread',
-           'host side': 'functional::get_function_composition, get_function_operands, functional::apply (functor.hpp, function_composition.hpp)'}
+           'host side': 'functional::get_function_composition, get_function_operands, functional::apply (functor.hpp, function_composition.hpp)',
+           'NmVerif.Kernel.deviceOperand': 'cuda::context_t::create_array / hip / sycl (eval/cuda/context.hpp:155-200, eval/hip/context.hpp:158-203, eval/sycl/context.hpp:372-412), run for real in h_c13_dev.cpp / h_c13_sycl.cpp',
+           'SYCL launch': 'sycl::context_t::run / run_ (eval/sycl/context.hpp:448-520, 575-595) and evaluator_t<view, shared_ptr<sycl::context_t>> (eval/sycl/evaluator.hpp), run for real over the mock runtime'}
 MANIFEST = dict(
-    text='Proof: 13 Lean theorems about the kernel body model — create_vector/create_array/device_array round trips from raw (pointer, shape, dim) triples, the guard (global id >= size writes nothing), the closed form of the fold over ANY schedule (order, interleaving, duplication, block size, over-provisioned or partial grid: a cell is final iff some executed thread addressed it, otherwise untouched; never out of bounds) and hence output = flattened host result for every covering launch — tied to the C++ by running the real kernel_helper.hpp + functional extraction/apply on the host for 54 view programs of depth 1..3 (CUDA/HIP/SYCL path: function extraction + device_array operands + fn::apply; OpenCL path: create_array(ptr,shape_ptr,dim) + direct view call), block sizes 1..33, exact..2x grids, five thread orders, duplicated / far / missing threads, against NumPy and the Lean fold on every check.',
-    note='No device in this sandbox: kernel launch, driver API, memory transfer and real hardware scheduling are not exercised; the 1-d launch is modelled as an arbitrary list of (thread, block) pairs executed sequentially (threads write disjoint cells or identical values, so sequential consistency is the only assumption). Lean kernel + propext/Classical.choice/Quot.sound. Known findings: column-major host operands are re-read row-major on the device path; function extraction is wrong when a view operand is not the first operand. Repaired: dangling reference in get_function_composition for binary ufuncs over views (regression programs kept, also under ASan in the thorough tier).',
+    text='Proof: 13 Lean theorems about the kernel body model — create_vector/create_array/device_array round trips from raw (pointer, shape, dim) triples, the guard (global id >= size writes nothing), the closed form of the fold over ANY schedule (order, interleaving, duplication, block size, over-provisioned or partial grid: a cell is final iff some executed thread addressed it, otherwise untouched; never out of bounds) and hence output = flattened host result for every covering launch — tied to the C++ by running the real kernel_helper.hpp + functional extraction/apply on the host for 59 view programs of depth 1..3, the real SYCL evaluator end to end over a sequential mock of the SYCL runtime (12 programs) and the real CUDA/HIP operand upload over runtime stand-ins (CUDA/HIP/SYCL path: function extraction + device_array operands + fn::apply; OpenCL path: create_array(ptr,shape_ptr,dim) + direct view call), block sizes 1..33, exact..2x grids, five thread orders, duplicated / far / missing threads, against NumPy and the Lean fold on every check.',
+    note='No device in this sandbox: kernel launch, driver API, memory transfer and real hardware scheduling are not exercised; the 1-d launch is modelled as an arbitrary list of (thread, block) pairs executed sequentially (threads write disjoint cells or identical values, so sequential consistency is the only assumption). Lean kernel + propext/Classical.choice/Quot.sound. Known findings (both replayed through the real SYCL evaluator and the real CUDA/HIP create_array as well): column-major host operands are re-read row-major on the device path (repair proposed: fixes/C13-kernel.colmajor-operand.diff); function extraction is wrong when a view operand is not the first operand (fixes/C14-extract.nonfirst-view-operand.diff); follow-ups on branch w4/c1314-postfix. Repaired: dangling reference in get_function_composition for binary ufuncs over views (regression programs kept, also under ASan in the thorough tier).',
     technique='Lean 4 induction over schedules (List (tid x bid)) + differential correspondence of the host-compilable kernel body')
 ASSUMPTIONS = ['a device launch is equivalent to some sequential execution of its threads (each thread writes one cell; colliding writes carry the same value)',
                'block_id * block_size + thread_id does not wrap in size_t (launch geometry below 2^64 threads)',
                'operand rank <= NMTOOLS_KERNEL_MAX_DIM = 8 (create_vector uses static_vector<T,8>)',
                'kernel launch / memory copies / device compilers are outside the sandbox and not covered']
 PARTIAL = []
-TRUSTED = ['host simulation of the kernel body: same headers, same call sequence as eval/cuda/context.hpp:10-31, but compiled by g++ for the host']
+TRUSTED = ['host simulation of the kernel body: same headers, same call sequence as eval/cuda/context.hpp:10-31, but compiled by g++ for the host',
+           'harness/c13_sycl_mock.hpp (sequential stand-in for the SYCL runtime: buffers are host vectors, parallel_for runs the work items the generator lists), '
+           'harness/c13_cuda_shim.hpp / c13_hip_shim.hpp (device memory = host memory, kernels never launched)']
 
 SENTINEL = -7
 MAXOUT = 64
@@ -593,4 +604,5 @@ KNOWN_PREDICATES = {'colmajor_operand': colmajor_operand, 'nonfirst_view_operand
 def coverage_extra(cases, tier):
     progs = sorted({t[5:] for c in cases for t in c.tags if t.startswith('prog=')})
     bs = sorted({int(t[4:]) for c in cases for t in c.tags if t.startswith('bsz=')})
-    return {'programs': len(progs), 'program_names': progs, 'block_sizes': bs, 'device_launch_covered': False}
+    return {'programs': len(progs), 'program_names': progs, 'block_sizes': bs, 'device_launch_covered': False,
+            'sycl_evaluator_over_mock_runtime': sorted(SYCL_PROGS), 'cuda_hip_create_array_over_shim': sorted(DEV_BACKENDS)}
